@@ -71,9 +71,13 @@ def gen_case(rng, params, idx):
         types.append(gen.gen_static_tx(rng, atoms, rng.choice([1, 2, 2, 3, 3])))
     dmod = None
     if rng.random() < 0.5:
-        dmod = gen.fresh_deferred_module(f"c13_{idx}_")
+        pkg = rng.random() < 0.5
+        dmod = gen.fresh_deferred_module(f"c13_{idx}_", package=pkg)
+        # in a package the class may be named through its defining submodule, a re-exporting one, or the package
+        paths = {"Thing": ["base.Thing", "api.Thing", "Thing"], "Sub": ["impl.Sub", "api.Sub", "Sub"],
+                 "Other": ["base.Other", "api.Other"]}
         for cname in rng.sample(["Thing", "Sub", "Other"], 2):
-            d = ["Df", f"{dmod}.{cname}"]
+            d = ["Df", f"{dmod}.{rng.choice(paths[cname]) if pkg else cname}"]
             types.append(d)
             types.append([rng.choice(["U", "I"]), d, rng.choice(atoms)])
     user = [s["name"] for s in hier]
